@@ -71,3 +71,12 @@ package prelude
 //@ assume func github.com/keep-network/keep-common/pkg/cache.NewTimeCache
 //@   modifies alloc
 //@   ensures result != nil && !old(allocated(result))
+
+// slices.IndexFunc: the result is -1 or a valid position; idxCalls / idxLast record
+// the calls and the last answer (so a caller can be required to return exactly it).
+//@ ghost idxCalls int
+//@ ghost idxLast int
+//@ assume func golang.org/x/exp/slices.IndexFunc
+//@   modifies ghost.idxCalls, ghost.idxLast
+//@   ensures result == -1 || (0 <= result && result < len(arg0))
+//@   ensures ghost.idxCalls == old(ghost.idxCalls) + 1 && ghost.idxLast == result
